@@ -7,7 +7,7 @@ use crate::talloc::{self, Ev};
 use crate::tok::{self, Tok, TokB};
 use std::mem::MaybeUninit;
 use std::panic::{catch_unwind, AssertUnwindSafe};
-use triomphe::{Arc, ArcUnion, HeaderSlice, ThinArc, UniqueArc};
+use triomphe::{Arc, ArcUnion, HeaderSlice, HeaderWithLength, ThinArc, UniqueArc};
 
 const SEP: u64 = 99999999;
 
@@ -327,6 +327,34 @@ pub fn zst(kind: u64) -> Vec<u64> {
         18 => {
             let _ = UniqueArc::<HeaderSlice<ZTok, [MaybeUninit<u8>]>>::from_header_and_uninit_slice(ZTok, isize::MAX as usize - 7);
         }
+        // zero-sized ELEMENTS behind a recorded length that is not the real one: into_thin must refuse (the recorded
+        // length is all a ThinArc has), and the unwinding destroys header and real elements once each
+        19 => {
+            let a = Arc::from_header_and_vec(HeaderWithLength::new(ZTok, 5), vec![ZTok, ZTok]);
+            let t = Arc::into_thin(a);
+            wrong_counts += 1 + t.slice.len() as u64;
+            drop(t);
+        }
+        20 => {
+            let a = Arc::from_header_and_vec(HeaderWithLength::new(ZTok, 0), vec![ZTok, ZTok, ZTok]);
+            let t = Arc::into_thin(a);
+            wrong_counts += 1 + t.slice.len() as u64;
+            drop(t);
+        }
+        21 => {
+            let t = Arc::into_thin(Arc::from_header_and_vec(HeaderWithLength::new(ZTok, 2), vec![ZTok, ZTok]));
+            if t.slice.len() != 2 || t.header.length != 2 {
+                wrong_counts += 1;
+            }
+            let mut a = Arc::from_thin(t);
+            match Arc::get_mut(&mut a) {
+                Some(m) => m.header.length = 7,
+                None => wrong_counts += 1,
+            }
+            let t = Arc::into_thin(a);
+            wrong_counts += 1 + t.slice.len() as u64;
+            drop(t);
+        }
         _ => {
             let a = Arc::new(ZTok);
             let mut o = Arc::into_raw_offset(a.clone());
@@ -354,7 +382,7 @@ pub fn zst(kind: u64) -> Vec<u64> {
 
 pub fn run1(kind: u64, n: usize, k: u64) -> Vec<u64> {
     if kind >= 28 {
-        return if kind < 47 && n == 0 && k == 0 { zst(kind - 28) } else { vec![98] };
+        return if kind < 50 && n == 0 && k == 0 { zst(kind - 28) } else { vec![98] };
     }
     if kind >= 24 {
         return if kind < 28 && n == 0 && k == 0 { plain(kind - 24) } else { vec![98] };
